@@ -380,40 +380,40 @@ theorem failure_prefix (wd' : World W RN RL) (s0 : St W RN RL) :
 def exCfg : Cfg := { hyd := 2, report := 2, duration := 6, maxTrials := 2, backup := false, convErr := false }
 
 /-- a clean run with one partial step (presolve lands on 3): the off-grid step is solved but not reported -/
-example : ((runSim traceWorld exCfg ⟨[0, 2, 3, 4, 6], [], [], 0⟩ 0 0).halt,
-           (runSim traceWorld exCfg ⟨[0, 2, 3, 4, 6], [], [], 0⟩ 0 0).times,
-           (runSim traceWorld exCfg ⟨[0, 2, 3, 4, 6], [], [], 0⟩ 0 0).accepted) =
+example : ((runSim traceWorld exCfg ⟨[0, 2, 3, 4, 6], [], [], 0, 0⟩ 0 0).halt,
+           (runSim traceWorld exCfg ⟨[0, 2, 3, 4, 6], [], [], 0, 0⟩ 0 0).times,
+           (runSim traceWorld exCfg ⟨[0, 2, 3, 4, 6], [], [], 0, 0⟩ 0 0).accepted) =
     (some .finished, [0, 2, 4, 6], [0, 2, 3, 4, 6]) := by decide
 
 /-- the third solver call fails: the run stops, flags, and reports the first two rows only -/
-example : ((runSim traceWorld exCfg ⟨[], [.converged, .converged, .singular], [], 0⟩ 0 0).halt,
-           (runSim traceWorld exCfg ⟨[], [.converged, .converged, .singular], [], 0⟩ 0 0).times,
-           (runSim traceWorld exCfg ⟨[], [.converged, .converged, .singular], [], 0⟩ 0 0).nSolve) =
+example : ((runSim traceWorld exCfg ⟨[], [.converged, .converged, .singular], [], 0, 0⟩ 0 0).halt,
+           (runSim traceWorld exCfg ⟨[], [.converged, .converged, .singular], [], 0, 0⟩ 0 0).times,
+           (runSim traceWorld exCfg ⟨[], [.converged, .converged, .singular], [], 0, 0⟩ 0 0).nSolve) =
     (some .flagNoConv, [0, 2], 3) := by decide
 
 /-- same with `convergence_error=True`: RuntimeError -/
-example : (runSim traceWorld { exCfg with convErr := true } ⟨[], [.converged, .iterLimit], [], 0⟩ 0 0).halt =
+example : (runSim traceWorld { exCfg with convErr := true } ⟨[], [.converged, .iterLimit], [], 0, 0⟩ 0 0).halt =
     some .raiseNoConv := by decide
 
 /-- a backup solver rescues a failed primary call: the run finishes clean after 5 calls for 4 steps -/
-example : ((runSim traceWorld { exCfg with backup := true } ⟨[], [.converged, .iterLimit, .converged], [], 0⟩ 0 0).halt,
-           (runSim traceWorld { exCfg with backup := true } ⟨[], [.converged, .iterLimit, .converged], [], 0⟩ 0 0).nSolve,
-           (runSim traceWorld { exCfg with backup := true } ⟨[], [.converged, .iterLimit, .converged], [], 0⟩ 0 0).times) =
+example : ((runSim traceWorld { exCfg with backup := true } ⟨[], [.converged, .iterLimit, .converged], [], 0, 0⟩ 0 0).halt,
+           (runSim traceWorld { exCfg with backup := true } ⟨[], [.converged, .iterLimit, .converged], [], 0, 0⟩ 0 0).nSolve,
+           (runSim traceWorld { exCfg with backup := true } ⟨[], [.converged, .iterLimit, .converged], [], 0, 0⟩ 0 0).times) =
     (some .finished, 5, [0, 2, 4, 6]) := by decide
 
 /-- post-solve controls that flip for ever: `trials = 2` allows three solves of the step, then the run stops flagged -/
-example : ((runSim traceWorld exCfg ⟨[], [], [false, true, true, true, true], 0⟩ 0 0).halt,
-           (runSim traceWorld exCfg ⟨[], [], [false, true, true, true, true], 0⟩ 0 0).nSolve,
-           (runSim traceWorld exCfg ⟨[], [], [false, true, true, true, true], 0⟩ 0 0).times) =
+example : ((runSim traceWorld exCfg ⟨[], [], [false, true, true, true, true], 0, 0⟩ 0 0).halt,
+           (runSim traceWorld exCfg ⟨[], [], [false, true, true, true, true], 0, 0⟩ 0 0).nSolve,
+           (runSim traceWorld exCfg ⟨[], [], [false, true, true, true, true], 0, 0⟩ 0 0).times) =
     (some .flagTrials, 4, [0]) := by decide
 
 /-- off-contract presolve (back onto a reported time): the model raises like the code does -/
-example : (runSim traceWorld { exCfg with report := 0 } ⟨[0, 2, 2], [], [], 0⟩ 0 0).halt =
+example : (runSim traceWorld { exCfg with report := 0 } ⟨[0, 2, 2], [], [], 0, 0⟩ 0 0).halt =
     some .raiseAlreadySolved := by decide
 
 /-- the contract holds along the first example run (so the theorems above apply to it) -/
 example : ∀ n, n ≤ 22 → PresolveOK traceWorld
-    (iter traceWorld exCfg n (init (RN := Nat) (RL := Nat) ⟨[0, 2, 3, 4, 6], [], [], 0⟩ 0 0)) := by
+    (iter traceWorld exCfg n (init (RN := Nat) (RL := Nat) ⟨[0, 2, 3, 4, 6], [], [], 0, 0⟩ 0 0)) := by
   intro n hn s
   revert hn s
   revert n
